@@ -112,6 +112,10 @@ class Registry:
             if isinstance(st, ast.FunctionDef):
                 self.specs[st.name] = st
 
+    def ufunc(self, name, argtypes, rettype):
+        """uninterpreted function usable in clauses (models a library function whose definition is not given)"""
+        self.ufuncs[name] = (list(argtypes), rettype)
+
     def invariant(self, cls, clauses):
         self.invariants.setdefault(cls, []).extend(clauses)
 
@@ -119,11 +123,6 @@ class Registry:
         """model of a module that is not Python source in the repository (C extension, third party): class and
         function signatures only; every method needs a (trusted) contract."""
         self.extern_modules[rel] = _dedent(src)
-
-    def ufunc(self, name, args, ret):
-        """uninterpreted (total, deterministic, otherwise unconstrained) function usable in clauses: models an
-        external predicate such as 'this signature verifies'. Nothing is assumed about it beyond congruence."""
-        self.ufuncs[name] = (list(args), ret)
 
     def c_contract(self, key, **kw):
         """contract of a C function: key '<file>::<function>', setup(m) builds the symbolic pre-state and returns the
